@@ -4,6 +4,7 @@ import Nstd.Life.LemmasOps
 import Nstd.Life.LemmasSrc
 import Nstd.Life.LemmasBlk
 import Nstd.Life.LemmasFault
+import Nstd.Life.LemmasCopy
 /-
   Property theorems of the Life area.
 
@@ -97,10 +98,22 @@ theorem copy_independent_arr (ops : List Op) (op : Op) (a : Nat) (ha : a ∉ op.
       absArr (step (run init ops) op) a = absArr (run init ops) a :=
   Ops.step_frame_arr ops op a ha
 
-/- OPEN (not proved; covered by the correspondence run and the Python reference only):
-   `copy_equal : absNode (step st (.copy c w)) c = absNode st ⟨c.k, w⟩` (and for `assign`, arrays) for every
-   reachable st - i.e. that a copy has the same contents as its source right after the copy.  For Map / HashMap
-   / HashSet this needs the key-uniqueness and ordering invariants that are the subject of C01/C02. -/
+/-- C04 `copy_equal` (List, Array).  Right after `B b(a)` (copy) and after `b = a` (assign, b ≠ a) the copy has
+    exactly the contents of its source, in every reachable state. -/
+theorem copy_equal_list (ops : List Op) (v w : Nat) (hv : v ≤ 1) (hw : w ≤ 1) (hne : v ≠ w) :
+    absNode (step (run init ops) (.copy ⟨.L, v⟩ w)) ⟨.L, v⟩ = absNode (run init ops) ⟨.L, w⟩ ∧
+    absNode (step (run init ops) (.assign ⟨.L, v⟩ w)) ⟨.L, v⟩ = absNode (run init ops) ⟨.L, w⟩ :=
+  Copy.copy_equal_list ops v w hv hw hne
+
+theorem copy_equal_array (ops : List Op) (v w : Nat) (hv : v ≤ 1) (hw : w ≤ 1) (hne : v ≠ w) :
+    absArr (step (run init ops) (.copy ⟨.A, v⟩ w)) v = absArr (run init ops) w ∧
+    absArr (step (run init ops) (.assign ⟨.A, v⟩ w)) v = absArr (run init ops) w :=
+  Copy.copy_equal_array ops v w hv hw hne
+
+/- OPEN (not proved here; covered by the correspondence run and the Python reference only):
+   `copy_equal_node` for the keyed kinds Map, MultiMap, HashMap, HashSet:
+     absNode (step st (.copy c w)) c = absNode st ⟨c.k, w⟩   (and for `assign`)  for every reachable st.
+   It needs the ordering / uniqueness of the keys of the source, invariants that are the subject of C01/C02. -/
 
 -- C04: self arguments behave as if copied first ------------------------------------------------------------------
 
